@@ -115,6 +115,15 @@ type c17tCase struct {
 	// the network cuts short (see c17tExtra)
 	SrvHSTimeoutMs int         `json:"srvHsTimeoutMs,omitempty"`
 	Extra          []c17tExtra `json:"extra,omitempty"`
+	// sub-scenarios with their own programs (see c17tDeadlines, c17tFailedHandshake): Mini 1 = deadline calls with repeated
+	// absolute instants on an established session (MOn: 0 the client, 1 the handle); Mini 2 = a handshake that fails (FailMode
+	// 0 timeout against a silent server, 1 junk answer, 2 the socket refuses the write) FailAtMs into the case, under concurrent use
+	Mini     int         `json:"mini,omitempty"`
+	MOn      int         `json:"mOn,omitempty"`
+	MProcs   [][]c17tMOp `json:"mprocs,omitempty"`
+	FailMode int         `json:"failMode,omitempty"`
+	FailAtMs int         `json:"failAtMs,omitempty"`
+	FailArg  int         `json:"failArg,omitempty"`
 }
 
 func c17tSameAddr(a, b *net.UDPAddr) bool {
@@ -930,8 +939,26 @@ func c17tRunFn(t *testing.T) func(c c17tCase, v *vlib.Verdict) {
 				}
 			}
 		}
+		if c.Mini < 0 || c.Mini > 2 || c.MOn < 0 || c.MOn > 1 || c.FailMode < 0 || c.FailMode > 2 || c.FailAtMs < 0 || c.FailAtMs > 10000 || c.FailArg < 0 ||
+			len(c.MProcs) > 8 || (c.Mini > 0 && len(c.MProcs) == 0) {
+			v.Discard = true
+			return
+		}
+		for _, pr := range c.MProcs {
+			for _, op := range pr {
+				if op.Kind < 0 || op.Kind >= len(c17tMKinds) || (c.Mini == 1 && op.Kind > 4) || (c.Mini == 2 && op.Kind == 4) || op.AtUs < 0 || op.AtUs > 20000000 ||
+					op.Abs < -1 || op.Abs > 20000 || op.Rep < 0 || op.Arg < 0 || len(pr) > 8 {
+					v.Discard = true
+					return
+				}
+			}
+		}
 		res := vlib.Bubble(t, 60*time.Second, func() {
-			if c.Drain > 0 {
+			if c.Mini == 1 {
+				c17tDeadlines(c, v)
+			} else if c.Mini == 2 {
+				c17tFailedHandshake(c, v)
+			} else if c.Drain > 0 {
 				c17tDrain(c, v)
 			} else {
 				c17tScenario(c, v)
@@ -974,8 +1001,484 @@ func c17MutexWaiters(stacks string) []string {
 	return out
 }
 
+// ---------------------------------------------------------------------------------------------------------------------
+// Two sub-scenarios with a bookkeeping of their own (c17tCase.Mini).
+//
+// Mini 1 - deadlines on an established session: 2-5 goroutines issue, at drawn virtual instants, SetDeadline /
+// SetReadDeadline calls on one endpoint (Client or Handle) - with ABSOLUTE instants taken from one or two values per case, so
+// that the very same time.Time is set again (by the same goroutine, at once, 1-3 times; or by another goroutine; before or
+// while a reader waits), besides the zero time and past instants -, Read / ReadMsg calls, and messages written by the peer.
+// Oracle = the queue half's "deadline in force": for a read that no deadline change with ANOTHER value overlaps, the last
+// change completed before it determines the deadline D; a timeout error without a deadline, or before D, is a violation, and so
+// is a read that is still blocked a second after D.
+//
+// Mini 2 - a handshake that FAILS while other goroutines use the same client: the server never answers and the handshake
+// times out, the answer is junk (delayed by the network), or the client's socket refuses the write. One goroutine starts the
+// handshake; 2-6 others call Handshake, Read, ReadMsg, Write, WriteMsg, SetDeadline, SetReadDeadline, Close at instants drawn
+// around the (known, virtual) instant of the failure: 1 ms before it, at it, 1 us .. 20 ms after it. The goroutines share
+// NOTHING of the harness while the program runs (results go to per-goroutine slots, no mutex, no channel; the yield hook counts
+// per point with an atomic of that point), so that the client's own state is the only thing that orders a caller against the
+// goroutine that ran the handshake: an access of the published result that is not ordered through it is a report of the race
+// detector. Oracle: the handshake cannot succeed, so every Handshake/Read/ReadMsg/Write/WriteMsg call returns a non-nil error;
+// no panic; every call has returned 15 virtual s after the failure; three final Close calls agree; nothing is left.
+
+type c17tMOp struct {
+	Kind int `json:"kind"`          // index into c17tMKinds
+	AtUs int `json:"atUs"`          // virtual instant (us after the start of the program) at which the call is issued; earlier ones of the goroutine may delay it
+	Abs  int `json:"abs,omitempty"` // deadline calls: the deadline, ms after the start of the program (0: the zero time, < 0: an instant in the past)
+	Rep  int `json:"rep,omitempty"` // deadline calls: repeated this many more times with the same value
+	Arg  int `json:"arg,omitempty"` // read buffer / message length
+}
+
+var c17tMKinds = []string{"SetDeadline", "SetReadDeadline", "Read", "ReadMsg", "PeerWriteMsg", "Handshake", "Write", "WriteMsg", "Close"}
+
+type c17tMEvent struct {
+	G, I     int
+	Kind     int
+	DL       time.Duration
+	Err      error
+	N        int
+	Panic    string
+	Start    time.Duration
+	End      time.Duration
+	seqStart int64
+	seqEnd   int64
+}
+
+func c17tSleepUntil(start time.Time, us int) {
+	if d := time.Duration(us)*time.Microsecond - time.Since(start); d > 0 {
+		time.Sleep(d)
+	}
+}
+
+func c17tDeadlines(c c17tCase, v *vlib.Verdict) {
+	w := vGetWorld()
+	env := vStartServer(w.ServerConfig(c.Hidden))
+	cli, _ := env.NewClient(vCliAddr, w.ClientConfig(c.Hidden, false))
+	if err := cli.Handshake(); err != nil {
+		v.Failf("C17:sanity:honest-handshake-fails", "%v", err)
+		env.Stop()
+		return
+	}
+	h, err := env.Srv.AcceptTimeout(2 * time.Second)
+	if err != nil {
+		v.Failf("C17:sanity:honest-handshake-fails", "accept: %v", err)
+		cli.Close()
+		env.Stop()
+		return
+	}
+	var on, peer MsgConn = cli, h
+	name := "Client"
+	if c.MOn == 1 {
+		on, peer, name = h, cli, "Handle"
+	}
+	synctest.Wait()
+	start := time.Now()
+	var mu sync.Mutex
+	var events []*c17tMEvent
+	pending := map[string]bool{}
+	var seq atomic.Int64
+	readSem := make(chan struct{}, 1) // readers take turns on a channel (the handle's read lock is a mutex)
+	var wg sync.WaitGroup
+	for g, pr := range c.MProcs {
+		wg.Add(1)
+		go func(g int, pr []c17tMOp) {
+			defer wg.Done()
+			for i, op := range pr {
+				c17tSleepUntil(start, op.AtUs)
+				key := fmt.Sprintf("g%d.%d:%s.%s", g, i, name, c17tMKinds[op.Kind])
+				mu.Lock()
+				pending[key] = true
+				mu.Unlock()
+				if op.Kind == 2 || op.Kind == 3 {
+					readSem <- struct{}{}
+				}
+				ev := &c17tMEvent{G: g, I: i, Kind: op.Kind, Start: time.Since(start), seqStart: seq.Add(1)}
+				finish := func() {
+					ev.End = time.Since(start)
+					ev.seqEnd = seq.Add(1)
+					mu.Lock()
+					events = append(events, ev)
+					mu.Unlock()
+				}
+				switch op.Kind {
+				case 0, 1:
+					var dl time.Time
+					switch {
+					case op.Abs > 0:
+						dl = start.Add(time.Duration(op.Abs) * time.Millisecond)
+					case op.Abs < 0:
+						dl = start.Add(-time.Second)
+					}
+					set := on.SetDeadline
+					if op.Kind == 1 {
+						set = on.SetReadDeadline
+					}
+					for r := 0; ; r++ {
+						if !dl.IsZero() {
+							ev.DL = dl.Sub(start)
+						}
+						ev.Err = set(dl)
+						if r >= op.Rep || r >= 3 {
+							break
+						}
+						finish()
+						ev = &c17tMEvent{G: g, I: i, Kind: op.Kind, Start: time.Since(start), seqStart: seq.Add(1)}
+					}
+				case 2:
+					ev.N, ev.Err = on.Read(make([]byte, 1+op.Arg%2000))
+				case 3:
+					ev.N, ev.Err = on.ReadMsg(make([]byte, 70000))
+				case 4:
+					ev.Err = peer.WriteMsg(vlib.Fill(uint64(g*100+i), 1+op.Arg%300))
+				}
+				finish()
+				if op.Kind == 2 || op.Kind == 3 {
+					<-readSem
+				}
+				mu.Lock()
+				delete(pending, key)
+				mu.Unlock()
+			}
+		}(g, pr)
+	}
+	procsDone := make(chan struct{})
+	go func() { wg.Wait(); close(procsDone) }()
+	select {
+	case <-procsDone:
+	case <-time.After(40 * time.Second):
+	}
+	cli.Close()
+	h.Close()
+	env.Stop()
+	select {
+	case <-procsDone:
+	case <-time.After(30 * time.Second):
+		var p []string
+		mu.Lock()
+		for k := range pending {
+			p = append(p, k)
+		}
+		mu.Unlock()
+		sort.Strings(p)
+		v.Failf("C17:transport:call-not-released-by-close:"+c17tKindsOf(p), "30 s after client, handle and server were closed these calls have not returned: %v", p)
+		return
+	}
+	mu.Lock()
+	defer mu.Unlock()
+	isDL := func(e *c17tMEvent) bool { return e.Kind <= 1 }
+	sameAgain, judged := false, 0
+	for _, e := range events {
+		if e.Kind != 2 && e.Kind != 3 {
+			if isDL(e) && e.DL > 0 && e.End < e.DL {
+				for _, o := range events {
+					if o != e && isDL(o) && o.DL == e.DL && o.End < o.DL {
+						sameAgain = true
+					}
+				}
+			}
+			continue
+		}
+		var last *c17tMEvent
+		var over []*c17tMEvent
+		for _, sd := range events {
+			if !isDL(sd) {
+				continue
+			}
+			if sd.seqStart < e.seqEnd && sd.seqEnd > e.seqStart {
+				over = append(over, sd)
+			}
+			if sd.seqEnd < e.seqStart && (last == nil || sd.seqEnd > last.seqEnd) {
+				last = sd
+			}
+		}
+		if last != nil && last.Err != nil {
+			continue
+		}
+		// setting the instant that is already in force changes nothing: such calls do not make the deadline in force ambiguous
+		same := func(sd *c17tMEvent) bool { return last != nil && last.DL != 0 && sd.Err == nil && sd.DL == last.DL }
+		skip := false
+		for _, sd := range over {
+			if !same(sd) {
+				skip = true
+			}
+		}
+		if last != nil {
+			for _, sd := range events {
+				if sd != last && isDL(sd) && sd.seqStart < last.seqEnd && sd.seqEnd > last.seqStart && !same(sd) {
+					skip = true
+				}
+			}
+		}
+		if skip {
+			continue
+		}
+		judged++
+		var D time.Duration
+		if last != nil {
+			D = last.DL
+		}
+		call := fmt.Sprintf("%s.%s g%d.%d", name, c17tMKinds[e.Kind], e.G, e.I)
+		timedOut := e.Err != nil && errors.Is(e.Err, os.ErrDeadlineExceeded)
+		switch {
+		case timedOut && D == 0:
+			v.Failf("C17:transport:timeout-without-deadline:"+name, "%s returned %v at %v although no deadline was in force (the last deadline call before it cleared it, or there was none)", call, e.Err, e.End)
+			return
+		case timedOut && e.End+time.Millisecond < D:
+			v.Failf("C17:transport:timeout-before-deadline:"+name, "%s returned %v at %v, before its deadline %v", call, e.Err, e.End, D)
+			return
+		case D != 0 && e.End > D+time.Second && e.End > e.Start+time.Second:
+			v.Failf("C17:transport:deadline-not-honoured:"+name, "%s started at %v with the read deadline %v in force (set by %s) and was still blocked at %v (returned %d, %v)", call, e.Start, D, c17tMKinds[last.Kind], e.End, e.N, e.Err)
+			return
+		}
+	}
+	v.NonTrivial = len(c.MProcs) >= 3
+	v.Label("deadlines-on-established-session:" + name)
+	if sameAgain {
+		v.Label("same-future-deadline-set-again:" + name)
+	}
+	if judged > 0 {
+		v.Label("read-judged-against-deadline-in-force")
+	}
+	v.Label(map[bool]string{false: "discoverable", true: "hidden"}[c.Hidden])
+}
+
+var c17tFailPoints = []string{"transport.Client.Handshake.elected", "transport.Client.Handshake.beforeDone", "transport.Client.Close.elected", "transport.Client.Close.connClosed", "transport.Client.Close.beforePublish"}
+
+func c17tFailedHandshake(c c17tCase, v *vlib.Verdict) {
+	w := vGetWorld()
+	env := vStartServer(w.ServerConfig(c.Hidden))
+	start := time.Now()
+	junkAfter := time.Duration(c.FailAtMs) * time.Millisecond
+	env.Net.Filter = func(d simnet.Datagram) []simnet.Datagram {
+		if d.Dst == nil || d.Dst.IP.Equal(vSrvAddr.IP) {
+			return []simnet.Datagram{d}
+		}
+		// towards the client: nothing (modes 0, 2), or junk in place of the server's first answer (mode 1)
+		if c.FailMode == 1 && d.Idx >= 0 {
+			n := 1 + c.FailArg%max(1, len(d.Data))
+			n = min(n, len(d.Data))
+			if c.FailArg%3 == 0 {
+				d.Data = append([]byte(nil), d.Data[:n]...) // cut short
+			} else {
+				d.Data = append(append([]byte(nil), d.Data[:min(n, 4)]...), vlib.Fill(uint64(c.FailArg), len(d.Data))...) // right type, junk body
+			}
+			d.Delay = junkAfter
+			return []simnet.Datagram{d}
+		}
+		return nil
+	}
+	ccfg := w.ClientConfig(c.Hidden, false)
+	ccfg.HSTimeout = 5 * time.Second // modes 1, 2: the failure comes first (a junk answer that happens to parse is followed by junk only)
+	if c.FailMode == 0 {
+		ccfg.HSTimeout = time.Duration(c.FailAtMs) * time.Millisecond
+	}
+	cli, cliSock := env.NewClient(vCliAddr, ccfg)
+	if c.FailMode == 2 {
+		cliSock.FailWrites(errors.New("verif: network is unreachable"))
+	}
+	// yield schedule without a shared lock: one counter per point
+	var hits [8]atomic.Int32
+	sched := map[string]map[int]int{}
+	idx := map[string]int{}
+	for i, p := range c17tFailPoints {
+		idx[p] = i
+	}
+	for _, y := range c.Yields {
+		pt := c17tFailPoints[y.Point%len(c17tFailPoints)]
+		if sched[pt] == nil {
+			sched[pt] = map[int]int{}
+		}
+		sched[pt][y.Hit] = y.Us
+	}
+	verifhook.Set(func(point string) {
+		m := sched[point]
+		if m == nil {
+			return
+		}
+		k := int(hits[idx[point]].Add(1)) - 1
+		if us, ok := m[k]; ok {
+			if us > 0 {
+				time.Sleep(time.Duration(us) * time.Microsecond)
+			} else {
+				runtime.Gosched()
+			}
+		}
+	})
+	defer verifhook.Set(nil)
+	res := make([][]c17tMEvent, len(c.MProcs)) // res[g] is written by goroutine g only and read after wg.Wait
+	cur := make([]atomic.Int32, len(c.MProcs)) // 1 + index of the call goroutine g is in (diagnostics of the termination oracle)
+	var wg sync.WaitGroup
+	for g, pr := range c.MProcs {
+		wg.Add(1)
+		go func(g int, pr []c17tMOp) {
+			defer wg.Done()
+			for i, op := range pr {
+				c17tSleepUntil(start, op.AtUs)
+				cur[g].Store(int32(i + 1))
+				ev := c17tMEvent{G: g, I: i, Kind: op.Kind, Start: time.Since(start)}
+				func() {
+					defer func() {
+						if r := recover(); r != nil {
+							ev.Panic = fmt.Sprint(r)
+						}
+					}()
+					switch op.Kind {
+					case 0:
+						ev.Err = cli.SetDeadline(start.Add(time.Duration(op.Abs) * time.Millisecond))
+					case 1:
+						ev.Err = cli.SetReadDeadline(start.Add(time.Duration(op.Abs) * time.Millisecond))
+					case 2:
+						ev.N, ev.Err = cli.Read(make([]byte, 1+op.Arg%2000))
+					case 3:
+						ev.N, ev.Err = cli.ReadMsg(make([]byte, 70000))
+					case 5:
+						ev.Err = cli.Handshake()
+					case 6:
+						ev.N, ev.Err = cli.Write(vlib.Fill(uint64(g), 1+op.Arg%300))
+					case 7:
+						ev.Err = cli.WriteMsg(vlib.Fill(uint64(g), 1+op.Arg%300))
+					case 8:
+						ev.Err = cli.Close()
+					}
+				}()
+				ev.End = time.Since(start)
+				res[g] = append(res[g], ev)
+				cur[g].Store(0)
+			}
+		}(g, pr)
+	}
+	procsDone := make(chan struct{})
+	go func() { wg.Wait(); close(procsDone) }()
+	blocked := func() []string {
+		var p []string
+		for g := range cur {
+			if i := int(cur[g].Load()); i > 0 {
+				p = append(p, fmt.Sprintf("g%d.%d:Client.%s", g, i-1, c17tMKinds[c.MProcs[g][i-1].Kind]))
+			}
+		}
+		sort.Strings(p)
+		return p
+	}
+	mode := []string{"timeout", "junk-answer", "write-refused"}[c.FailMode]
+	select {
+	case <-procsDone:
+	case <-time.After(time.Duration(c.FailAtMs)*time.Millisecond + 15*time.Second):
+		p := blocked()
+		v.Failf("C17:transport:call-not-released-by-failed-handshake:"+c17tKindsOf(p), "the handshake fails (%s) %d ms into the case; 15 s later these calls have not returned: %v", mode, c.FailAtMs, p)
+	}
+	closeRes := make(chan error, 3)
+	for i := 0; i < 3; i++ {
+		go func() { closeRes <- cli.Close() }()
+	}
+	var got []error
+	tm := time.NewTimer(30 * time.Second)
+	for len(got) < 3 && v.OK() {
+		select {
+		case e := <-closeRes:
+			got = append(got, e)
+		case <-tm.C:
+			v.Failf("C17:transport:close-does-not-return:Client", "Client.Close after a failed handshake (%s): only %d of 3 concurrent calls returned within 30 s; still blocked: %v", mode, len(got), blocked())
+		}
+	}
+	tm.Stop()
+	env.Stop()
+	if !v.OK() {
+		return
+	}
+	select {
+	case <-procsDone:
+	case <-time.After(30 * time.Second):
+		p := blocked()
+		v.Failf("C17:transport:call-not-released-by-close:"+c17tKindsOf(p), "30 s after the client was closed these calls have not returned: %v", p)
+		return
+	}
+	for _, e := range got[1:] {
+		if fmt.Sprint(e) != fmt.Sprint(got[0]) {
+			v.Failf("C17:transport:close-results-differ:Client", "concurrent Client.Close callers got different results after a failed handshake: %v vs %v", got[0], e)
+			return
+		}
+	}
+	afterFailure := 0
+	for g := range res {
+		for _, e := range res[g] {
+			call := fmt.Sprintf("Client.%s g%d.%d", c17tMKinds[e.Kind], e.G, e.I)
+			if e.Panic != "" {
+				v.Failf("C17:transport:panic-on-failed-client:"+c17tMKinds[e.Kind], "%s (issued at %v; the handshake fails by %s at %d ms) panicked: %s", call, e.Start, mode, c.FailAtMs, e.Panic)
+				return
+			}
+			// the server never answers validly: no handshake succeeds, and Read/Write imply one
+			if e.Kind >= 2 && e.Kind <= 7 && e.Err == nil {
+				v.Failf("C17:transport:nil-error-on-failed-client:"+c17tMKinds[e.Kind], "%s (issued at %v, returned at %v) reported success although the client's handshake cannot succeed (%s at %d ms)", call, e.Start, e.End, mode, c.FailAtMs)
+				return
+			}
+			if e.Kind == 8 && fmt.Sprint(e.Err) != fmt.Sprint(got[0]) {
+				v.Failf("C17:transport:close-results-differ:Client", "%s returned %v, the final Close calls %v", call, e.Err, got[0])
+				return
+			}
+			if e.Start >= time.Duration(c.FailAtMs)*time.Millisecond && e.Kind != 0 && e.Kind != 1 {
+				afterFailure++
+			}
+		}
+	}
+	v.NonTrivial = len(c.MProcs) >= 3
+	v.Label("failed-handshake-under-concurrent-use:" + mode)
+	if afterFailure > 0 {
+		v.Label("failed-handshake:calls-issued-at-or-after-the-failure")
+	}
+	v.Label(map[bool]string{false: "discoverable", true: "hidden"}[c.Hidden])
+}
+
+func c17tGenMini(t *rapid.T, c *c17tCase) {
+	c.Mini = rapid.SampledFrom([]int{1, 2, 2}).Draw(t, "mini")
+	if c.Mini == 1 {
+		c.MOn = rapid.IntRange(0, 1).Draw(t, "on")
+		pool := rapid.SliceOfNDistinct(rapid.SampledFrom([]int{3, 40, 300, 2500}), 1, 2, rapid.ID[int]).Draw(t, "absPool")
+		at := rapid.SampledFrom([]int{0, 0, 0, 500, 1000, 2000, 10000, 100000, 1000000})
+		op := rapid.Custom(func(t *rapid.T) c17tMOp {
+			o := c17tMOp{Kind: rapid.SampledFrom([]int{0, 0, 1, 1, 2, 2, 3, 4}).Draw(t, "kind"), AtUs: at.Draw(t, "at")}
+			switch o.Kind {
+			case 0, 1:
+				o.Abs = rapid.SampledFrom(append([]int{0, -1}, append(pool, pool...)...)).Draw(t, "abs")
+				o.Rep = rapid.SampledFrom([]int{0, 0, 1, 1, 2, 3}).Draw(t, "rep")
+			default:
+				o.Arg = rapid.SampledFrom([]int{0, 3, 70, 1999}).Draw(t, "arg")
+			}
+			return o
+		})
+		c.MProcs = rapid.SliceOfN(rapid.SliceOfN(op, 1, 4), 2, 5).Draw(t, "mprocs")
+		return
+	}
+	c.FailMode = rapid.SampledFrom([]int{0, 0, 1, 2}).Draw(t, "failMode")
+	c.FailArg = rapid.IntRange(0, 1000).Draw(t, "failArg")
+	c.FailAtMs = rapid.SampledFrom([]int{1, 30, 2000}).Draw(t, "failAt")
+	hsAt := 0
+	if c.FailMode == 2 {
+		c.FailAtMs = rapid.SampledFrom([]int{0, 5}).Draw(t, "failAtWrite") // the write fails as soon as the handshake starts
+		hsAt = c.FailAtMs * 1000
+	}
+	off := rapid.SampledFrom([]int{-1000, -1, 0, 0, 0, 1, 1, 50, 1000, 20000})
+	op := rapid.Custom(func(t *rapid.T) c17tMOp {
+		o := c17tMOp{Kind: rapid.SampledFrom([]int{5, 5, 2, 3, 6, 7, 8, 8, 0, 1}).Draw(t, "kind")}
+		o.AtUs = max(0, c.FailAtMs*1000+off.Draw(t, "off"))
+		o.Abs = rapid.SampledFrom([]int{0, 1, 5000}).Draw(t, "abs")
+		o.Arg = rapid.SampledFrom([]int{0, 3, 70}).Draw(t, "arg")
+		return o
+	})
+	c.MProcs = append([][]c17tMOp{{{Kind: 5, AtUs: hsAt}}}, rapid.SliceOfN(rapid.SliceOfN(op, 1, 3), 2, 5).Draw(t, "mprocs")...)
+	c.Yields = rapid.SliceOfN(rapid.Custom(func(t *rapid.T) c17tYield {
+		return c17tYield{Point: rapid.IntRange(0, len(c17tFailPoints)-1).Draw(t, "pt"), Hit: rapid.IntRange(0, 1).Draw(t, "hit"), Us: rapid.SampledFrom([]int{0, 1, 500, 50000}).Draw(t, "us")}
+	}), 0, 2).Draw(t, "yields")
+}
+
 func c17tGen(t *rapid.T) c17tCase {
 	c := c17tCase{Hidden: rapid.Bool().Draw(t, "hidden")}
+	// one case in six: deadline calls that repeat an absolute instant, on an established session / a failing handshake under
+	// concurrent use (c17tGenMini)
+	if rapid.IntRange(0, 5).Draw(t, "mini-family") == 0 {
+		c17tGenMini(t, &c)
+		return c
+	}
 	if rapid.IntRange(0, 9).Draw(t, "drain") == 0 {
 		c.Drain = rapid.IntRange(1, 60).Draw(t, "drainN")
 		if rapid.IntRange(0, 3).Draw(t, "short-buffers") == 0 {
